@@ -94,7 +94,7 @@ fn step_strategy() -> impl Strategy<Value = Step> {
     ]
 }
 
-fn case_strategy() -> impl Strategy<Value = Case> {
+pub fn case_strategy() -> impl Strategy<Value = Case> {
     (
         4u8..=14,
         proptest::collection::vec(input_strategy(), 1..=6),
@@ -368,7 +368,7 @@ pub fn check_result(sk: &HllSketch, e: &Expect, ctx: &str) -> Result<(), Fail> {
     Ok(())
 }
 
-fn run_case(c: &Case, info: &mut CaseInfo) -> Result<(), Fail> {
+pub fn run_case(c: &Case, info: &mut CaseInfo) -> Result<(), Fail> {
     let mut built = vec![];
     for i in &c.inputs {
         built.push(build_input(i)?);
